@@ -55,10 +55,16 @@ def _why(spec_id, o, items, d, f, ci=False):
     oo = dict(o, case_insensitive=ci)
     label = None
     for fl in spec:
-        vals = [v for k, v in items if dcspec.matches(fl, k, oo)]
+        sup = [(k, v) for k, v in items if dcspec.matches(fl, k, oo)]
+        vals = [v for k, v in sup]
         if len(vals) > 1:
             if any(a != b for a in vals for b in vals):
-                return 'several-spellings-differing'
+                # one spelling in two letter cases only, or genuinely different aliases
+                if len({k.lower() for k, v in sup}) == 1:
+                    if all(dcspec.conv_int(v, fl['ge'])[0] == 'ok' for v in vals):
+                        return 'several-spellings-differing:case-only'
+                    return 'several-spellings-differing:case-only-some-invalid'
+                return 'several-spellings-differing:distinct-aliases'
             label = 'several-spellings-equal'
     return label or 'other'
 
